@@ -3,6 +3,7 @@
 // report-summaries / report-coverage / report-paths / summarize-on-demand, and reports per run
 //   - what the summaries report file contained at the moment taint.Analyze returned
 //     (headers of main-package summaries present / expected; bytes written after the return);
+//
 // the race detector's own reports go to the files named by GORACE=log_path (parsed by the parent).
 //
 //	c20race <workdir> <reps> <combo-mask-list> <prog>...     prog = testdata:<analysis>/<name> | dir:<path>
